@@ -33,6 +33,7 @@ type Options struct {
 	ChanScale    int
 	ChanScaleMin int
 	MakeCap      int // cap on make([]T, n) sizes (0 = none)
+	Race         bool // happens-before data-race detection
 	Trace        bool
 	KnownPanicSites []KnownSite // panic/deadlock sites listed as known findings
 	Prefix       []int64 // run exactly one path (replay in-engine)
@@ -240,6 +241,9 @@ func (w *Worker) runPath(prefix []int64) *pathState {
 		mutexes: map[*value]*mutexState{}, wgs: map[*value]*wgState{}, onces: map[*value]*onceState{},
 		explore: e.Opts.Explore, schedBudget: e.Opts.SchedBudget, extra: map[string]interface{}{}, syncMaps: map[*value]*smap{},
 	}
+	if e.Opts.Race {
+		st.raceInit()
+	}
 	i := newInterpreter(e.P, st)
 	g := &gor{id: 0, name: "main", wake: make(chan struct{}, 1)}
 	st.gors = []*gor{g}
@@ -305,6 +309,26 @@ func (w *Worker) collect(st *pathState) {
 			st.events = append(st.events, Event{Kind: EvKnownObserved, ID: outKnown, Model: m, Msg: kind + ": " + desc})
 		}
 	}
+	var raceViols []*Violation
+	for idx := range st.events {
+		ev := &st.events[idx]
+		if ev.Kind != EvRace {
+			continue
+		}
+		known := ""
+		for _, ks := range e.Opts.KnownPanicSites {
+			if ks.Contains != "" && contains(ev.Msg, ks.Contains) {
+				known = ks.ID
+				break
+			}
+		}
+		_, m := w.solver.CheckModel(st.pc, st.inputVars())
+		if known != "" {
+			ev.Kind, ev.ID, ev.Model = EvKnownObserved, known, m
+			continue
+		}
+		raceViols = append(raceViols, &Violation{Kind: "race", ID: ev.ID, Msg: ev.Msg, Model: m, Inputs: st.inputs, Trace: st.trace})
+	}
 	if st.outcome == OutUnwind && e.Opts.Livelock {
 		// a loop bound that every run of the unchanged code stays far below was
 		// exceeded: candidate non-termination, to be confirmed natively
@@ -353,6 +377,7 @@ func (w *Worker) collect(st *pathState) {
 	if outViol != nil {
 		r.Violations = append(r.Violations, outViol)
 	}
+	r.Violations = append(r.Violations, raceViols...)
 	for _, ev := range st.events {
 		switch ev.Kind {
 		case EvAssertHolds, EvAssertViolated, EvAssertUnknown:
